@@ -52,7 +52,11 @@ def gen_member(rng, mid, n):
 
 
 def gen_index(rng, n):
-    t = rng.choice(["int", "slice", "slice", "mask", "mask", "ints", "ints", "perm"])
+    t = rng.choice(["int", "slice", "slice", "mask", "mask", "ints", "ints", "perm", "argsort"])
+    if t == "argsort":
+        # an index computed from a member by numpy (np.argsort / np.argmax of a unit-carrying Array: the result is whatever
+        # the library makes of it), or a comparison mask of a member
+        return {"t": "argsort", "how": rng.choice(["argsort", "argsort", "argmax", "argmin", "compare"]), "pick": rng.randrange(8)}
     if t == "int":
         return {"t": "int", "i": rng.randrange(-max(n, 1), max(n, 1))}
     if t == "slice":
@@ -348,7 +352,32 @@ def execute(case, stats):
                 if S.scalar or not S.m:
                     continue
                 n = cur_n(op["s"])
-                pair = np_index(op["idx"], n, osy, bufs)
+                if op["idx"]["t"] == "argsort":
+                    arrs = [kk for kk, e in S.m.items() if e["kind"] == "arr"]
+                    if not arrs or n == 0:
+                        continue
+                    key = arrs[op["idx"]["pick"] % len(arrs)]
+                    mv = S.m[key]["comps"][0]
+                    how = op["idx"]["how"]
+                    if how == "argsort":
+                        oi_ = np.argsort(S.g[key])
+                        ni_ = np.asarray(oi_.values if isinstance(oi_, osy.Array) else oi_).astype(np.int64)
+                        # the index object is the input of the selection; it only has to be what it claims to be (ties in any order)
+                        if sorted(ni_.tolist()) != list(range(n)) or np.any(np.diff(mv[ni_]) < 0):
+                            continue
+                        pair = (oi_, ni_)
+                    elif how in ("argmax", "argmin"):
+                        oi_ = getattr(np, how)(S.g[key])
+                        ni_ = int(np.asarray(oi_.values if isinstance(oi_, osy.Array) else oi_))
+                        if not (0 <= ni_ < n) or mv[ni_] != getattr(np, how[3:])(mv):
+                            continue
+                        pair = (oi_, ni_)
+                    else:
+                        thr = float(np.median(mv))
+                        pair = (S.g[key] > osy.Array(values=thr, unit=S.m[key]["unit"]), mv > thr)
+                    stats.inc("probe.index_computed_from_a_member=" + how)
+                else:
+                    pair = np_index(op["idx"], n, osy, bufs)
                 if op["idx"].get("reuse") and op["idx"].get("as") in ("ndarray", "Array"):
                     stats.inc("probe.index_buffer_refilled_in_place")
                 if pair is None:
@@ -368,7 +397,7 @@ def execute(case, stats):
                 for kk in newm:
                     newm[kk]["obj"] = out[kk]
                 T.g, T.m = out, newm
-                T.scalar = op["idx"]["t"] == "int"
+                T.scalar = op["idx"]["t"] == "int" or op["idx"].get("how") in ("argmax", "argmin")
                 stats.inc("probe.index_" + op["idx"]["t"] + ("_as_" + op["idx"].get("as", "") if "as" in op["idx"] else ""))
                 if len(newm) >= 2 and n >= 2:
                     nontrivial = True
